@@ -1533,3 +1533,7 @@ mod test {
         )
     }
 }
+
+#[cfg(any(kani, verif_replay))]
+#[path = "/verif/kani/expand.rs"]
+pub(crate) mod verif_kani_expand;
